@@ -1,9 +1,45 @@
-(* C11 — Results contain only documented types, consistent with the decoder mode. *)
+(* C11 — A stream of pickles decodes one value per call, each as if it stood alone. *)
 From Coq Require Import List ZArith NArith Bool.
-From OgRek Require Import Base Value Reader Decoder DecoderFacts.
+From Coq.Strings Require Import Byte.
+From OgRek Require Import Base Value Reader Decoder DecoderFacts StreamFacts.
 Import ListNotations.
-(* placeholder until the stream theorem is proved: the only fact used here is C04's *)
-Theorem C11_partial_no_panic :
-  forall cfg st inp,
-    fst (fst (decode cfg st inp)) <> Panic /\ fst (fst (decode cfg st inp)) <> OutOfFuel.
-Proof. exact decode_safe. Qed.
+
+(* Exactly through each STOP: if Decode accepts p (consuming all of it), then on p followed by
+   anything it returns the same value and the same decoder state and leaves what follows
+   untouched - for every configuration and every decoder state. *)
+Theorem C11_framing :
+  forall cfg st p v st' t,
+    decode cfg st p = ((Ok v, st'), []) -> decode cfg st (p ++ t) = ((Ok v, st'), t).
+Proof. exact decode_framing. Qed.
+Print Assumptions C11_framing.
+
+(* What an earlier pickle left on the operand stack, and the protocol it announced, cannot
+   influence a later call (the two defects repaired by the "fix:" commit a918595). *)
+Theorem C11_no_stack_or_protocol_carry_over :
+  forall cfg st s p inp, decode cfg (set_proto (set_stack st s) p) inp = decode cfg st inp.
+Proof. exact decode_ignores_stack_and_proto. Qed.
+Print Assumptions C11_no_stack_or_protocol_carry_over.
+
+(* Streams: for pickles p1..pn such that each decodes to a value from the state its predecessor
+   left (chain), successive Decode calls on p1 ++ ... ++ pn return exactly those values, one per
+   call, and then io.EOF. *)
+Theorem C11_stream :
+  forall cfg ps st rs fuel,
+    chain cfg st ps rs -> (length ps < fuel)%nat ->
+    fst (decode_all fuel cfg st (concat ps)) = rs ++ [(Err EEOF, start_state (final_state st rs))].
+Proof. exact decode_all_chain. Qed.
+Print Assumptions C11_stream.
+
+(* NOT YET PROVED (hence the property is claimed as partial): that the value a self-contained
+   pickle decodes to from the predecessor's state (memo, heap) equals - up to renaming of heap
+   identities - the value it decodes to from a fresh Decoder, and that heap objects of earlier
+   results are not written by later self-contained pickles.  Both are decided on every run by
+   comparing each call with stand-alone decoding and by re-dumping earlier results afterwards. *)
+
+Example C11_nonvacuous :
+  let cfg := Build_dconfig false false None in
+  exists rs, chain cfg init_state [[x4b; x01; x2e]; [x80; x03; x4e; x2e]] rs.
+Proof.
+  eexists. eapply chain_cons; [discriminate|vm_compute; reflexivity|].
+  eapply chain_cons; [discriminate|vm_compute; reflexivity|]. apply chain_nil.
+Qed.
